@@ -185,7 +185,7 @@ func (g *gateSched) openAll() {
 
 func init() {
 	checks["C05"] = func(rep *Report, tier string, seed int64) {
-		rep.Rule = "chunked L1 as the store of record: (a) EXHAUSTIVE loss of entries: for n = 0..N chunks (quick N=5, thorough N=6) a value is set, every subset of {metadata, chunk 0..n-1} is removed from the backend, then a get and a get-and-touch are issued, and — from the same torn state — an append or prepend (a read-modify-write) followed by a get and a get-and-touch; a multi-key get of 300000/290000/1500/10-byte values read by a client that starts reading 600 ms late; additionally an older value of the same key with a different chunk count is set first and random subsets of the NEW entries are removed (old chunks may survive under the new metadata); (b) interleavings at backend-request granularity: two sets of different values (1..3 chunks) on one key through separate connections, optionally over a previous value, with every interleaving of their backend requests for the small sizes and seeded random schedules otherwise, with a concurrent reader in a third of the schedules; oracle: every reply is a miss or the value AND flags of one single set; the invariant of the theorem (every backend entry is the metadata or a whole chunk of one of the sets, by token) is checked on the fake backend after every schedule; (a) is also compared byte for byte with the Lean model; distinct = distinct (chunk count, subset) / (sizes, schedule)"
+		rep.Rule = "chunked L1 as the store of record: (a) EXHAUSTIVE loss of entries: for n = 0..N chunks (quick N=5, thorough N=6) a value is set, every subset of {metadata, chunk 0..n-1} is removed from the backend, then a get and a get-and-touch are issued, and — from the same torn state — an append or prepend (a read-modify-write) followed by a get and a get-and-touch; a multi-key get of 300000/290000/1500/10-byte values read by a client that starts reading 600 ms late; additionally an older value of the same key with a different chunk count is set first and random subsets of the NEW entries are removed (old chunks may survive under the new metadata); and an overwrite on the SAME connection is stopped at each of its backend requests (refused with out-of-memory, or the connection cut), leaving entries of both sets side by side; (b) interleavings at backend-request granularity: two sets of different values (1..3 chunks) on one key through separate connections, optionally over a previous value, with every interleaving of their backend requests for the small sizes and seeded random schedules otherwise, with a concurrent reader in a third of the schedules; oracle: every reply is a miss or the value AND flags of one single set; the invariant of the theorem (every backend entry is the metadata or a whole chunk of one of the sets, by token) is checked on the fake backend after every schedule; (a) is also compared byte for byte with the Lean model; distinct = distinct (chunk count, subset) / (sizes, schedule)"
 		d := StartDriver()
 		defer d.Close()
 		cfg := StackCfg{Orca: "l1only", Locked: "none", Bits: 0, L1: "chunked"}
@@ -284,6 +284,35 @@ func init() {
 				if enoughDivergences(rep, 3) {
 					rep.Distinct = len(distinct)
 					return
+				}
+			}
+		}
+		// (a'') an overwrite on the SAME connection that the backend stops part-way: one of the
+		// second set's backend requests is refused (out of memory) or the connection is cut there;
+		// entries of both sets are then in the backend side by side and a read must still be a
+		// miss or one of the two values whole
+		for n0 := 1; n0 <= 3; n0++ {
+			for n1 := 1; n1 <= 3; n1++ {
+				for j := 0; j <= n1+1; j++ {
+					for fk, fkind := range []string{"status", "cut-after"} {
+						v0, v1 := mkval(n0, 'o'), mkval(n1, 'N')
+						sc := Scenario{ID: fmt.Sprintf("C05-halfset-%d-%d-%d-%s", n0, n1, j, fkind), Stack: cfg, Conns: conns}
+						sc.Steps = append(sc.Steps,
+							Step{Kind: "feed", Conn: "b", Cmd: Command{Kind: "set", Key: key, Flags: 1, Data: v0, Opaque: 1}},
+							Step{Kind: "fault", Fault: &FaultSpec{Tier: "L1", Index: j, Kind: fkind, Status: 0x0082}},
+							Step{Kind: "feed", Conn: "b", Cmd: Command{Kind: "set", Key: key, Flags: 2, Data: v1, Opaque: 2}},
+							Step{Kind: "feed", Conn: "b", Cmd: Command{Kind: "get", Keys: []GetKey{{Key: key, Opaque: 3}}}},
+							Step{Kind: "feed", Conn: "b", Cmd: Command{Kind: "gat", Key: key, Exptime: 500, Opaque: 4}})
+						out := RunScenarioO(d, sc, 3*time.Second, false)
+						if out.Tainted {
+							out = RunScenarioO(d, sc, 3*time.Second, false)
+						}
+						judge(sc, out, []wholeValue{{v0, 1}, {v1, 2}}, fmt.Sprintf("halfset/%d/%d/%d/%d", n0, n1, j, fk))
+						if enoughDivergences(rep, 3) {
+							rep.Distinct = len(distinct)
+							return
+						}
+					}
 				}
 			}
 		}
